@@ -8,6 +8,7 @@ From WG Require Import BV.Model.
 From WG Require Import BV.RefSel.
 From WG Require Import BV.Bits.
 From WG Require Import Par.Splice.
+From WG Require Import Par.LabelStore.
 From WG Require Import Flags.Props.
 From WG Require Import Visits.Bfs.
 From WG Require Import Visits.Dfs.
@@ -238,4 +239,21 @@ Extraction "model.ml"
   seq_iter_from
   ra_labels
   seek_bits
+  ser_enc
+  ser_dec
+  ser_valid
+  ser_ok
+  labels_valid
+  lab_seq
+  lab_closed
+  comp_labeled
+  par_comp_labeled
+  lab_read_seq
+  lab_read_ra_all
+  lab_ef
+  read_zip_seq
+  read_zip_ra
+  zip_nodes
+  labs
+  succs
 .
